@@ -195,15 +195,22 @@ func hcGenC07(rng *sim.Rand, tier string) interface{} {
 	if !big {
 		sc.CacheSize = rng.Pick(0, 0, 1, 2, 50)
 		sc.SplitPaths = rng.Bool(0.5)
+		sc.HdrPath = sc.SplitPaths && rng.Bool(0.4)
+		if rng.Bool(0.25) {
+			sc.Compress = rng.Pick(0, 1, 100) // Proxy compression between the backend body and the client
+		}
+		if rng.Bool(0.15) {
+			sc.Mirror = rng.PickStr("ok", "ok", "slow", "reset")
+		}
 	}
-	reqLimOf := func(l hcLimits, path string) int64 {
-		if sc.SplitPaths && path != "/up" {
+	reqLimOf := func(l hcLimits, path string, small bool) int64 {
+		if sc.SplitPaths && (path != "/up" || (sc.HdrPath && !small)) {
 			return hcEffective(0, l.srv)
 		}
 		return hcEffective(l.path, l.srv)
 	}
 	first := hcLimits{sc.SrvMax, sc.PathMax, sc.PoolMax, sc.ProxyMax}
-	if hcEffective(sc.PathMax, sc.SrvMax) < 0 && hcEffective(0, sc.SrvMax) < 0 && rng.Bool(0.4) {
+	if hcEffective(sc.PathMax, sc.SrvMax) < 0 && hcEffective(0, sc.SrvMax) < 0 && sc.Mirror == "" && rng.Bool(0.4) {
 		sc.Retry = 2 // a streamed body must pass intact, i.e. never be re-sent by a retry
 	}
 	around := func(lim int64) int {
@@ -228,10 +235,21 @@ func hcGenC07(rng *sim.Rand, tier string) interface{} {
 			var cl hcClient
 			for e, n := 0, rng.Range(1, 4); e < n; e++ {
 				ex := hcExchange{Method: rng.PickStr("POST", "PUT", "POST", "GET"), Path: paths[rng.Intn(len(paths))], Status: rng.Pick(200, 200, 201, 404, 500)}
-				ex.BodyLen = around(reqLimOf(l, ex.Path))
+				small := sc.HdrPath && rng.Bool(0.5)
+				if small {
+					ex.Hdr = append(ex.Hdr, [2]string{"X-Small", "1"})
+				}
+				if sc.Mirror != "" && rng.Bool(0.7) {
+					ex.Hdr = append(ex.Hdr, [2]string{"X-Mirror", "1"})
+				}
+				ex.BodyLen = around(reqLimOf(l, ex.Path, small))
+				if sc.HdrPath && rng.Bool(0.3) {
+					// sizes around the limit of the entry this request does NOT belong to
+					ex.BodyLen = around(reqLimOf(l, ex.Path, !small))
+				}
 				ex.RBodyLen = around(hcEffective(l.pool, l.proxy))
 				if prev != nil && rng.Bool(0.5) {
-					ex.BodyLen = around(reqLimOf(*prev, ex.Path))
+					ex.BodyLen = around(reqLimOf(*prev, ex.Path, small))
 				}
 				if prev != nil && rng.Bool(0.5) {
 					ex.RBodyLen = around(hcEffective(prev.pool, prev.proxy))
@@ -246,6 +264,9 @@ func hcGenC07(rng *sim.Rand, tier string) interface{} {
 				ex.RInc = rng.Bool(0.3)
 				ex.NewConn = rng.Bool(0.2)
 				ex.AcceptEnc = rng.PickStr("", "identity")
+				if sc.Compress >= 0 {
+					ex.AcceptEnc = rng.PickStr("gzip", "gzip", "gzip, deflate", "")
+				}
 				if sc.Retry > 1 && rng.Bool(0.5) {
 					ex.FailFirst = 1
 				}
@@ -445,8 +466,8 @@ func hcShort(b []byte) string {
 
 func (c *hcChain) describe(ex *hcExchange) string {
 	sc := c.sc
-	return fmt.Sprintf("[cfg retry=%d failFirst=%d server=%s memCache=%v byHost=%v keepHost=%v compress=%d respAdaptor=%q reqAdaptor=%q generation=%d cacheSize=%d splitPaths=%v mirror=%q discovered=%v srvMax=%d pathMax=%d poolMax=%d proxyMax=%d] [req %s %s?%s body=%d chunked=%v ae=%q conn=%v hdr=%v] [backend status=%d body=%d chunked=%v gzip=%v short=%d reset=%v hdr=%v]",
-		sc.Retry, ex.FailFirst, c.backAddr, sc.MemCache, sc.ByHost, sc.KeepHost, sc.Compress, sc.RespAdaptor, sc.ReqAdaptor, c.gen, sc.CacheSize, sc.SplitPaths, sc.Mirror, sc.Discovered, c.lim.srv, c.lim.path, c.lim.pool, c.lim.proxy,
+	return fmt.Sprintf("[cfg retry=%d failFirst=%d server=%s memCache=%v byHost=%v keepHost=%v compress=%d respAdaptor=%q reqAdaptor=%q generation=%d cacheSize=%d splitPaths=%v hdrPath=%v mirror=%q discovered=%v srvMax=%d pathMax=%d poolMax=%d proxyMax=%d] [req %s %s?%s body=%d chunked=%v ae=%q conn=%v hdr=%v] [backend status=%d body=%d chunked=%v gzip=%v short=%d reset=%v hdr=%v]",
+		sc.Retry, ex.FailFirst, c.backAddr, sc.MemCache, sc.ByHost, sc.KeepHost, sc.Compress, sc.RespAdaptor, sc.ReqAdaptor, c.gen, sc.CacheSize, sc.SplitPaths, sc.HdrPath, sc.Mirror, sc.Discovered, c.lim.srv, c.lim.path, c.lim.pool, c.lim.proxy,
 		ex.Method, ex.Path, ex.Query, ex.BodyLen, ex.Chunked, ex.AcceptEnc, ex.ConnTokens, ex.Hdr,
 		ex.Status, ex.RBodyLen, ex.RChunked, ex.RGzip, ex.RShort, ex.RReset, ex.RHdr)
 }
@@ -898,7 +919,9 @@ func (c *hcChain) checkC07(id string, ex *hcExchange, res *hcResp) {
 			// short body must become an error status ("rather than a truncated success")
 			r.Violate("C07.resp.short-body-success-status", "%s: backend declared %d bytes, sent %d and closed; client got status %d (%d body bytes, complete=%v, err %v) instead of an error status\n%s",
 				id, ex.RBodyLen, ex.RBodyLen-ex.RShort, res.status, len(res.body), res.complete, res.ioErr, desc)
-		} else if res.status/100 == 2 && res.complete && res.ioErr == nil {
+		} else if _, derr := hcDecode(res.body, res.hdr); res.status/100 == 2 && res.complete && res.ioErr == nil && derr == nil {
+			// (a gzip stream that ends without its trailer does not decode: the
+			// truncation is visible to the client, that is not a "success")
 			r.Violate("C07.resp.truncated-success", "%s: backend declared %d bytes, sent %d and closed; client got a complete-looking %d with %d bytes\n%s",
 				id, ex.RBodyLen, ex.RBodyLen-ex.RShort, res.status, len(res.body), desc)
 		}
